@@ -22,10 +22,12 @@ UNKNOWN = ["nope", "Nope", "__tablename__", "metadata", "registry", "__init__", 
 # names that exist on the root model but not on the related one: unknown behind the path even after the root resolved them
 SAME_NAME = ["n", "s", "gid"]
 SAME_NAME_CTX = ["n eq 1 and a/%s eq 2", "a/%s eq 2 or s eq 'k'", "gid ne null and not (a/%s eq null)", "cs/any(x: x/n eq 1) and a/%s eq 1"]
-UNKNOWN_CTX = ["%s eq 1", "tolower(%s) eq 'a'", "1 lt %s add 1", "n in (%s, 1)", "cs/any(x: x/%s eq 1)", "a/%s eq 1", "not (%s eq null)"]
+UNKNOWN_CTX = ["%s eq 1", "tolower(%s) eq 'a'", "contains(%s, '')", "endswith(%s, '') or n eq 1", "1 lt %s add 1", "n in (%s, 1)", "cs/any(x: x/%s eq 1)", "a/%s eq 1", "not (%s eq null)"]
 
 
-def needles(kind, val):
+def needles(kind, val, textual=False):
+    """spellings under which a literal may appear in a translation.  textual: the three SQL dialects write the literal
+    into the SQL text - a date-time keeps every part of its spelling there (fraction, offset, Z)"""
     if kind == "Integer":
         return [str(abs(val))]
     if kind == "Float":
@@ -37,7 +39,15 @@ def needles(kind, val):
     if kind == "Time":
         return [val]
     if kind == "DateTime":
-        return [val, val.replace("T", " ").rstrip("Z"), val.replace("T", " ")]
+        if textual:
+            return [val, val.replace("T", " ")]
+        import dateutil.parser
+        import datetime as _dt
+        d = dateutil.parser.isoparse(val)
+        alts = [val, val.replace("T", " ").rstrip("Z"), val.replace("T", " "), str(d)]
+        if d.tzinfo is not None:          # bound as the same instant: aware as written, or naive UTC
+            alts.append(str(d.astimezone(_dt.timezone.utc).replace(tzinfo=None)))
+        return alts
     if kind == "Duration":
         return ["73", str(73 * 86400 * 10 ** 6)] if val == "P73D" else None
     if kind == "GUID":
@@ -92,8 +102,10 @@ def run(ctx):
     traces, info = [], {}
     for r in res.records:
         text = U(r["text"])
-        nd = [n for n in (needles(k, v) for k, v in r["lits"]) if n]
+        nd_orm = [n for n in (needles(k, v) for k, v in r["lits"]) if n]
+        nd_txt = [n for n in (needles(k, v, True) for k, v in r["lits"]) if n]
         for bname, is_expr, fn in table:
+            nd = nd_txt if is_expr else nd_orm
             ctx.evaluations += 1
             oc = classify(lambda: fn(text))
             cid = len(traces) + 1
@@ -183,8 +195,10 @@ def replay(ctx, rep):
     r = d["case"]
     text = U(r["text"])
     traces, info = [], {}
-    nd = [n for n in (needles(k, v) for k, v in r["lits"]) if n]
+    nd_orm = [n for n in (needles(k, v) for k, v in r["lits"]) if n]
+    nd_txt = [n for n in (needles(k, v, True) for k, v in r["lits"]) if n]
     for bname, is_expr, fn in table:
+        nd = nd_txt if is_expr else nd_orm
         oc = classify(lambda: fn(text))
         cid = len(traces) + 1
         traces.append({"id": cid, "backend": bname, "nav": r["nav"], "geo": r["geo"], "expr": is_expr, "outcome": oc[0],
